@@ -237,6 +237,78 @@ for fn, first in (("matrixssl/tls13Encode.c", ["cv_server", "cv_client"]), ("mat
             resolve(u, lambda i, n, c, first=first: (first[i] if n == 2 and "IS_SERVER" in c else None), a[li], a[li + 1], pos,
                     "%s:%d %s" % (base, line_of(u, pos), callee))
 
+# ---------------------------------------------------------------- lengths of the all-zero inputs of the TLS 1.3 schedule
+# RFC 8446 7.1: a missing PSK / (EC)DHE input and the Master Secret's IKM are Hash.length zero bytes, the Early Secret's
+# salt likewise.  The code passes (pointer to zeros, length): the LENGTH expression of each such psHkdfExtract argument is
+# resolved symbolically in the hash length h (variables fed by psGetOutputBlockLength / tls13GetCipherHashSize /
+# tls13GetPskHashLen -> h; sizeof(local array) and literals -> numbers) and emitted as  zlen_<site> (h : nat) : nat.
+HASHLEN_CALLS = ("psGetOutputBlockLength", "tls13GetCipherHashSize", "tls13GetPskHashLen")
+_hdr_cache = {}
+def global_define(name, seen=()):
+    if name in seen: return None
+    if not _hdr_cache:
+        for d in ("matrixssl", "crypto", "crypto/digest", "core/include"):
+            dd = os.path.join(REPO, d)
+            if not os.path.isdir(dd): continue
+            for f in os.listdir(dd):
+                if f.endswith(".h"):
+                    try: t = open(os.path.join(dd, f), errors="replace").read()
+                    except Exception: continue
+                    for m in re.finditer(r'^[ \t]*#[ \t]*define[ \t]+(\w+)[ \t]+\(?\s*([\w\s+\-*()]+?)\s*\)?[ \t]*(?:/\*.*)?$', t, re.M):
+                        _hdr_cache.setdefault(m.group(1), m.group(2))
+    e = _hdr_cache.get(name)
+    if e is None: return None
+    def ident(m):
+        v = global_define(m.group(0), seen + (name,))
+        if v is None: raise ValueError(m.group(0))
+        return str(v)
+    try:
+        e2 = re.sub(r'\b[A-Za-z_]\w*\b', ident, e)
+        return int(eval(e2)) if re.match(r'^[\d\s+\-*()]+$', e2) else None
+    except Exception:
+        return None
+
+def sym_len(u, e, pos, seen=()):
+    """'h' | int | None for a length expression inside the function at pos"""
+    e = u.strip(e)
+    if re.match(r"^\d+[uUlL]*$", e): return int(re.sub(r"[uUlL]", "", e))
+    m = re.match(r"^sizeof\s*\(\s*(\w+)\s*\)$", e)
+    f = u.func_at(pos); body = u.txt[f[2]:f[3]] if f else ""
+    if m:
+        d = re.search(r'\bunsigned\s+char\s+%s\s*\[\s*([^\]]+)\]' % re.escape(m.group(1)), body) or re.search(r'\bchar\s+%s\s*\[\s*([^\]]+)\]' % re.escape(m.group(1)), body)
+        if not d: return None
+        x = d.group(1).strip()
+        if re.match(r"^\d+$", x): return int(x)
+        try: return u.int_value(x, pos)
+        except Exception: return global_define(x)
+    if any(re.match(r"^%s\s*\(" % c, e) for c in HASHLEN_CALLS): return "h"
+    if re.match(r"^\w+$", e) and e not in seen and f:
+        # assignments / initialisers of the variable that precede the use: all agree, else the nearest one decides
+        srcs = [(f[2] + m.start(), m.group(1)) for m in re.finditer(r'(?<![\w.>])%s\s*=\s*([^;=][^;]*);' % re.escape(e), body) if f[2] + m.start() < pos]
+        if not srcs: return None
+        vals = [sym_len(u, a, p_, seen + (e,)) for p_, a in srcs]
+        return vals[0] if len(set(vals)) == 1 else vals[-1]
+    return None
+
+zsites = {}          # site -> (value 'h' | int | None, provenance)
+u = Unit("matrixssl/tls13KeySchedule.c")
+for pos, a in u.calls("psHkdfExtract"):
+    f = u.func_at(pos)
+    if not f or len(a) < 7: continue
+    where = "tls13KeySchedule.c:%d %s" % (line_of(u, pos), f[0])
+    body = u.txt[f[2]:f[3]]
+    if f[0] == "tls13GenerateEarlySecret":
+        zsites["early_salt"] = (sym_len(u, a[2], pos), "%s: psHkdfExtract(.., %s, %s, ..)" % (where, a[1], a[2]))
+        m = re.search(r'pskVal\s*=\s*dummyPsk\s*;(.*?)\}', body, re.S)
+        mm = re.search(r'pskValLen\s*=\s*([^;]+);', m.group(1)) if m else None
+        zsites["dummy_psk"] = (sym_len(u, mm.group(1), pos) if mm else None, "%s: pskVal = dummyPsk; pskValLen = %s" % (where, mm.group(1).strip() if mm else "?"))
+    elif f[0] == "tls13DeriveHandshakeTrafficSecrets":
+        m = re.search(r'psk_keyex_mode_psk_ke\s*\)\s*\{(.*?)\n    \}', body, re.S)
+        mm = re.search(r'sharedSecretLen\s*=\s*([^;]+);', m.group(1)) if m else None
+        zsites["pskke_ikm"] = (sym_len(u, mm.group(1), pos) if mm else None, "%s: psk_ke: sharedSecretLen = %s" % (where, mm.group(1).strip() if mm else "?"))
+    elif f[0] == "tls13DeriveAppTrafficSecrets":
+        zsites["master_ikm"] = (sym_len(u, a[4], pos), "%s: psHkdfExtract(.., %s, %s, ..)" % (where, a[3], a[4]))
+
 # ---------------------------------------------------------------- output
 def blist(b): return "[" + "; ".join(str(x) for x in b) + "]%N"
 out = ["(* GENERATED by tools/srcgen/gen_tls_labels.py: (bytes, length) the TLS key derivation code passes at each derivation site - do not edit *)",
@@ -269,6 +341,17 @@ txt = read("matrixssl/tls13KeySchedule.c")
 for nm in ("sha256OfEmptyInput", "sha384OfEmptyInput"):
     m = re.search(r"%s\s*\[\s*\d*\s*\]\s*=\s*\{([^}]*)\}" % nm, txt)
     out.append("Definition s_%s : list N := [%s]%%N." % (nm, "; ".join(str(int(x, 16)) for x in re.findall(r"0x[0-9a-fA-F]+", m.group(1))) if m else ""))
+for zs in ("early_salt", "dummy_psk", "pskke_ikm", "master_ikm"):
+    v, w = zsites.get(zs, (None, "site not found"))
+    cap = CAPTURE.get("zlen_" + zs)
+    if v is None and cap:           # {"32": [lengths seen with a 32-byte hash], "48": [..]}
+        body = " ".join("if Nat.eqb h %s then %d else" % (k, sorted(x)[0]) for k, x in sorted(cap.items()) if x) + " h"
+        out.append("Definition zlen_%s (h : nat) : nat := %s.   (* %s; completed from the run-time capture *)" % (zs, body, w.replace("*)", "* )")))
+        table["zlen_" + zs] = {k: sorted(x)[0] for k, x in cap.items() if x}
+    else:
+        out.append("Definition zlen_%s (h : nat) : nat := %s.   (* %s%s *)" % (zs, "h" if v in ("h", None) else str(v), w.replace("*)", "* )"),
+                                                                         "" if v is not None else "; NOT RESOLVED and not exercised by the run-time capture"))
+        table["zlen_" + zs] = "h" if v in ("h", None) else v
 for n in notes: out.append("(* %s *)" % n.replace("*)", "* )"))
 s = "\n".join(out) + "\n"
 p = os.path.join(VERIF, "coq/Gen/TlsLabels.v")
